@@ -46,3 +46,7 @@ PROBES = list(PROBES) + ["extreme-aspect-ratio:sim", "extreme-aspect-ratio:compi
 # dimensions added in seeded round 9
 RULE = RULE + (" Round 9: the virtual-thread run models numba ARRAY reductions (`arr += x` on an array bound outside the prange: private per-thread copies added at the join) and fails "
                "when a floating-point one is fed by more than one thread; every array a kernel allocates is tracked as an object of its own.")
+
+# dimensions added in seeded round 10
+PROBES = list(PROBES) + ["buffer-longer-than-nsamps:sim", "buffer-longer-than-nsamps:compiled"]
+RULE = RULE + " Round 10: 40% of mask_channels runs hand the kernel a buffer with 1-37 spectra of live data beyond nsamps (they must stay untouched); a third of the masks flag a single channel."
